@@ -160,29 +160,29 @@ impl Oracle {
             }
         }
     }
-    /// Some(expected dump) when the op respects the documented preconditions; `Some("panic")` for a
-    /// documented panic; None when the documentation says nothing (adopt the implementation's result).
-    fn apply(&mut self, op: &Op) -> Option<String> {
+    /// the state change of `apply` without the text: Some(true) = documented panic, Some(false) = defined result,
+    /// None = undocumented (resync from the implementation)
+    fn apply_quiet(&mut self, op: &Op) -> Option<bool> {
         match op {
             Op::E => {
                 *self = Oracle::default();
-                Some(self.dump())
+                Some(false)
             }
             Op::N(a, b, c, d) => {
                 if a > c || b > d {
-                    return Some("panic".into());
+                    return Some(true);
                 }
                 if (*c as u64 - *a as u64 + 1) * (*d as u64 - *b as u64 + 1) >= (1 << 32) {
                     return None;
                 }
                 self.rect = Some(((*a, *b), (*c, *d)));
                 self.map.clear();
-                Some(self.dump())
+                Some(false)
             }
             Op::S(r, c, v) => {
-                let (s, e) = self.rect?; // empty range: undocumented
+                let (s, e) = self.rect?;
                 if *r < s.0 || *c < s.1 {
-                    return Some("panic".into());
+                    return Some(true);
                 }
                 self.rect = Some((s, (e.0.max(*r), e.1.max(*c))));
                 if *v == 0 {
@@ -190,22 +190,21 @@ impl Oracle {
                 } else {
                     self.map.insert((*r, *c), *v);
                 }
-                Some(self.dump())
+                Some(false)
             }
             Op::R(a, b, c, d) => {
                 if a > c || b > d {
-                    return None; // `range` documents nothing about reversed bounds
+                    return None;
                 }
                 self.rect = Some(((*a, *b), (*c, *d)));
                 self.map.retain(|k, _| k.0 >= *a && k.0 <= *c && k.1 >= *b && k.1 <= *d);
-                Some(self.dump())
+                Some(false)
             }
             Op::F(cells) => {
                 if cells.is_empty() {
                     *self = Oracle::default();
-                    return Some(self.dump());
+                    return Some(false);
                 }
-                // any cell order (D40: the readers pass cells in file order): tight bounding box over ALL cells
                 let first = cells.iter().map(|c| c.0).min().unwrap();
                 let last = cells.iter().map(|c| c.0).max().unwrap();
                 let c0 = cells.iter().map(|c| c.1).min().unwrap();
@@ -219,8 +218,16 @@ impl Oracle {
                         self.map.insert((*r, *c), *v);
                     }
                 }
-                Some(self.dump())
+                Some(false)
             }
+        }
+    }
+    /// Some(expected dump) when the op respects the documented preconditions; `Some("panic")` for a
+    /// documented panic; None when the documentation says nothing (adopt the implementation's result).
+    fn apply(&mut self, op: &Op) -> Option<String> {
+        match self.apply_quiet(op)? {
+            true => Some("panic".into()),
+            false => Some(self.dump()),
         }
     }
 }
@@ -238,6 +245,17 @@ fn apply_impl(r: &mut Range<usize>, op: &Op) -> Result<(), String> {
         *r = next;
     }
     res
+}
+
+/// in place (no clone per operation): for the large rectangles; after a panic the state is not used any more
+fn apply_inplace(r: &mut Range<usize>, op: &Op) -> Result<(), String> {
+    guarded(|| match op {
+        Op::E => *r = Range::empty(),
+        Op::N(a, b, c, d) => *r = Range::new((*a, *b), (*c, *d)),
+        Op::S(a, b, v) => r.set_value((*a, *b), *v),
+        Op::R(a, b, c, d) => *r = r.range((*a, *b), (*c, *d)),
+        Op::F(cells) => *r = Range::from_sparse(cells.iter().map(|(r, c, v)| Cell::new((*r, *c), *v)).collect()),
+    })
 }
 
 fn sig_of(op: &Op, before: &Range<usize>) -> String {
@@ -283,8 +301,35 @@ fn gen_history(rng: &mut Rng) -> Vec<Op> {
             Op::E
         } else if k < 30 {
             let m = rng.below(9);
-            let mut cells: Vec<(u32, u32, usize)> =
-                (0..m).map(|_| (cl(r0 + rng.below(7)), cl(c0 + rng.below(9)), rng.below(5) as usize)).collect();
+            let mut cells: Vec<(u32, u32, usize)> = if rng.chance(1, 3) {
+                // dense-ish: the row-major enumeration of a small box, then some positions replaced by a repeat
+                // of their predecessor (a rewritten cell) and some dropped: count == area with duplicates,
+                // count < area, count > area all occur
+                let (h, w) = (1 + rng.below(4), 1 + rng.below(4));
+                let mut v: Vec<(u32, u32, usize)> = vec![];
+                for i in 0..h {
+                    for j in 0..w {
+                        v.push((cl(r0 + i), cl(c0 + j), 1 + rng.below(4) as usize));
+                    }
+                }
+                let edits = rng.below(4);
+                for _ in 0..edits {
+                    if v.len() < 2 {
+                        break;
+                    }
+                    let i = 1 + rng.below(v.len() as u64 - 1) as usize;
+                    match rng.below(3) {
+                        0 => v[i] = (v[i - 1].0, v[i - 1].1, rng.below(5) as usize), // replace by a repeat
+                        1 => v.insert(i, (v[i - 1].0, v[i - 1].1, rng.below(5) as usize)), // extra repeat
+                        _ => {
+                            v.remove(i);
+                        }
+                    }
+                }
+                v
+            } else {
+                (0..m).map(|_| (cl(r0 + rng.below(7)), cl(c0 + rng.below(9)), rng.below(5) as usize)).collect()
+            };
             if !rng.chance(1, 10) {
                 cells.sort_by_key(|c| c.0);
             }
@@ -428,6 +473,308 @@ fn run_history(ops: &[Op], drv: &mut Driver) -> Outcome {
     out
 }
 
+/// the three iterators of `r` consumed from both ends by `pat` (`f` = next, `b` = next_back), in the text form of
+/// the driver's `iter` reply
+fn iter_impl(r: &Range<usize>, pat: &str) -> String {
+    let item = |d: char, o: Option<(usize, usize, &usize)>| match o {
+        Some((i, j, v)) => format!("{d}{i}:{j}:{v}"),
+        None => format!("{d}-"),
+    };
+    let mut c = r.cells();
+    let mut u = r.used_cells();
+    let mut w = r.rows();
+    let (mut tc, mut tu, mut tw) = (vec![], vec![], vec![]);
+    for d in pat.chars() {
+        let front = d == 'f';
+        tc.push(item(d, if front { c.next() } else { c.next_back() }));
+        tu.push(item(d, if front { u.next() } else { u.next_back() }));
+        let row = if front { w.next() } else { w.next_back() };
+        tw.push(match row {
+            Some(row) => format!("{d}[{}]", row.iter().map(|v| v.to_string()).collect::<Vec<_>>().join(".")),
+            None => format!("{d}-"),
+        });
+    }
+    format!("C={} L={} U={} R={}", tc.join(","), c.len(), tu.join(","), tw.join(","))
+}
+
+/// the same text from the property as stated: the forward enumerations (checked against the oracle by the dump)
+/// consumed as double-ended queues
+fn iter_spec(r: &Range<usize>, pat: &str) -> String {
+    use std::collections::VecDeque;
+    let mut c: VecDeque<String> = r.cells().map(|(i, j, v)| format!("{i}:{j}:{v}")).collect();
+    let mut u: VecDeque<String> = r.cells().filter(|c| *c.2 != 0).map(|(i, j, v)| format!("{i}:{j}:{v}")).collect();
+    let mut w: VecDeque<String> =
+        r.rows().map(|row| format!("[{}]", row.iter().map(|v| v.to_string()).collect::<Vec<_>>().join("."))).collect();
+    let (mut tc, mut tu, mut tw) = (vec![], vec![], vec![]);
+    for d in pat.chars() {
+        let take = |q: &mut VecDeque<String>| {
+            let o = if d == 'f' { q.pop_front() } else { q.pop_back() };
+            format!("{d}{}", o.unwrap_or("-".into()))
+        };
+        tc.push(take(&mut c));
+        tu.push(take(&mut u));
+        tw.push(take(&mut w));
+    }
+    format!("C={} L={} U={} R={}", tc.join(","), c.len(), tu.join(","), tw.join(","))
+}
+
+fn gen_pattern(rng: &mut Rng, cells: usize) -> String {
+    let n = rng.range(1, (cells as u64 + 3).min(40));
+    let bias = rng.below(4); // 0: mostly front, 1: mostly back, 2/3: mixed
+    (0..n)
+        .map(|_| {
+            let f = match bias {
+                0 => !rng.chance(1, 6),
+                1 => rng.chance(1, 6),
+                _ => rng.chance(1, 2),
+            };
+            if f { 'f' } else { 'b' }
+        })
+        .collect()
+}
+
+/// iterator protocol on the final state of a (small) history: impl vs model vs spec
+fn run_iter(ops: &[Op], pat: &str, drv: &mut Driver) -> Vec<(String, String, String, String, String)> {
+    let mut r: Range<usize> = Range::empty();
+    for op in ops {
+        if area_after(&r, op) > MAX_AREA {
+            return vec![];
+        }
+        let _ = apply_impl(&mut r, op);
+    }
+    let wire: Vec<String> = ops.iter().map(|o| o.wire()).collect();
+    let model = drv.ask(&format!("iter {pat} {}", wire.join(";")));
+    let imp = guarded(|| iter_impl(&r, pat)).unwrap_or_else(|e| format!("panic:{e}"));
+    let spec = iter_spec(&r, pat);
+    let mut fails = vec![];
+    let part = |s: &str, k: usize| s.split(' ').nth(k).unwrap_or("").to_string();
+    if imp != spec {
+        let which = (0..4).find(|k| part(&imp, *k) != part(&spec, *k)).unwrap_or(0);
+        let name = ["cells", "cells-len", "used_cells", "rows"][which];
+        fails.push(("impl_vs_spec".to_string(), format!("iter:{name}:mixed-ends"), imp.clone(), model.clone(), spec.clone()));
+    }
+    if imp != model {
+        fails.push(("impl_vs_model".to_string(), "iter".to_string(), imp.clone(), model.clone(), spec.clone()));
+    }
+    if model != spec && imp == spec {
+        fails.push(("model_vs_spec".to_string(), "iter".to_string(), imp, model, spec));
+    }
+    fails
+}
+
+// ---------------------------------------------------------------------------------------------------------
+// large rectangles (2^17 cells and more): size-dependent code paths. impl vs the independent oracle only —
+// the Lean model is not run on these (its list representation is quadratic here); what is compared is the whole
+// observable state, structurally instead of as text.
+
+#[derive(Clone, Debug)]
+enum LOp {
+    New(u32, u32, u32, u32),       // r0, c0, h, w
+    Fill(u32, u64),                // k pseudo-random non-default set_values inside the current rectangle
+    Set(u32, u32, usize),
+    Range(u32, u32, u32, u32),
+    Dense(u32, u32, u32, u32, u32, u64), // from_sparse of a full box r0,c0,h,w in reading order with `dups` repeats
+}
+
+impl LOp {
+    fn wire(&self) -> String {
+        match self {
+            LOp::New(a, b, c, d) => format!("NB,{a},{b},{c},{d}"),
+            LOp::Fill(k, s) => format!("FILL,{k},{s}"),
+            LOp::Set(a, b, v) => format!("S,{a},{b},{v}"),
+            LOp::Range(a, b, c, d) => format!("R,{a},{b},{c},{d}"),
+            LOp::Dense(a, b, c, d, e, s) => format!("FD,{a},{b},{c},{d},{e},{s}"),
+        }
+    }
+    fn parse(s: &str) -> LOp {
+        let p: Vec<&str> = s.split(',').collect();
+        let n = |i: usize| p[i].parse::<u64>().unwrap();
+        match p[0] {
+            "NB" => LOp::New(n(1) as u32, n(2) as u32, n(3) as u32, n(4) as u32),
+            "FILL" => LOp::Fill(n(1) as u32, n(2)),
+            "S" => LOp::Set(n(1) as u32, n(2) as u32, n(3) as usize),
+            "R" => LOp::Range(n(1) as u32, n(2) as u32, n(3) as u32, n(4) as u32),
+            "FD" => LOp::Dense(n(1) as u32, n(2) as u32, n(3) as u32, n(4) as u32, n(5) as u32, n(6)),
+            x => panic!("bad large op {x}"),
+        }
+    }
+    /// the basic operations it stands for, given the current rectangle
+    fn expand(&self, rect: Option<Rect>) -> Vec<Op> {
+        match self {
+            LOp::New(r0, c0, h, w) => vec![Op::N(*r0, *c0, r0 + h - 1, c0 + w - 1)],
+            LOp::Set(a, b, v) => vec![Op::S(*a, *b, *v)],
+            LOp::Range(a, b, c, d) => vec![Op::R(*a, *b, *c, *d)],
+            LOp::Fill(k, seed) => {
+                let Some((s, e)) = rect else { return vec![] };
+                let mut rng = Rng::new(*seed);
+                (0..*k)
+                    .map(|_| {
+                        Op::S(
+                            rng.range(s.0 as u64, e.0 as u64) as u32,
+                            rng.range(s.1 as u64, e.1 as u64) as u32,
+                            1 + rng.below(1000) as usize,
+                        )
+                    })
+                    .collect()
+            }
+            LOp::Dense(r0, c0, h, w, dups, seed) => {
+                let mut rng = Rng::new(*seed);
+                let mut v = Vec::with_capacity((*h as usize) * (*w as usize));
+                for i in 0..*h {
+                    for j in 0..*w {
+                        v.push((r0 + i, c0 + j, if rng.chance(1, 3) { 0 } else { 1 + rng.below(1000) as usize }));
+                    }
+                }
+                // a repeat REPLACES the following position: the count stays equal to the area
+                for _ in 0..*dups {
+                    let i = 1 + rng.below(v.len() as u64 - 1) as usize;
+                    v[i] = (v[i - 1].0, v[i - 1].1, 1 + rng.below(1000) as usize);
+                }
+                vec![Op::F(v)]
+            }
+        }
+    }
+}
+
+/// every observable of `r` against the oracle, without building text
+fn compare_large(r: &Range<usize>, o: &Oracle) -> Option<String> {
+    let rect = match (r.start(), r.end()) {
+        (Some(s), Some(e)) => Some((s, e)),
+        (None, None) => None,
+        _ => return Some("start/end disagree on emptiness".into()),
+    };
+    if rect != o.rect {
+        return Some(format!("bounds {:?} expected {:?}", rect, o.rect));
+    }
+    let Some((s, e)) = rect else {
+        return if r.cells().next().is_some() || r.rows().next().is_some() { Some("empty range yields cells".into()) } else { None };
+    };
+    let (h, w) = ((e.0 - s.0) as usize + 1, (e.1 - s.1) as usize + 1);
+    if r.get_size() != (h, w) {
+        return Some(format!("get_size {:?} expected {:?}", r.get_size(), (h, w)));
+    }
+    let val = |i: usize, j: usize| *o.map.get(&(s.0 + i as u32, s.1 + j as u32)).unwrap_or(&0);
+    let mut nrows = 0;
+    for (i, row) in r.rows().enumerate() {
+        if row.len() != w {
+            return Some(format!("row {i} has {} cells, width {w}", row.len()));
+        }
+        for (j, v) in row.iter().enumerate() {
+            if *v != val(i, j) {
+                return Some(format!("rows()[{i}][{j}] = {v}, expected {}", val(i, j)));
+            }
+        }
+        nrows += 1;
+    }
+    if nrows != h {
+        return Some(format!("rows() yields {nrows} rows, height {h}"));
+    }
+    let mut k = 0usize;
+    for (i, j, v) in r.cells() {
+        if (i, j) != (k / w, k % w) || *v != val(i, j) {
+            return Some(format!("cells()[{k}] = ({i},{j},{v}), expected ({},{},{})", k / w, k % w, val(k / w, k % w)));
+        }
+        k += 1;
+    }
+    if k != h * w {
+        return Some(format!("cells() yields {k} cells, expected {}", h * w));
+    }
+    let mut used: Vec<(usize, usize, usize)> =
+        o.map.iter().map(|(p, v)| ((p.0 - s.0) as usize, (p.1 - s.1) as usize, *v)).collect();
+    used.sort();
+    let got: Vec<(usize, usize, usize)> = r.used_cells().map(|(i, j, v)| (i, j, *v)).collect();
+    if got != used {
+        let d = got.iter().zip(used.iter()).position(|(a, b)| a != b).unwrap_or(got.len().min(used.len()));
+        return Some(format!("used_cells() differs at #{d}: {:?} expected {:?} (counts {} / {})", got.get(d), used.get(d), got.len(), used.len()));
+    }
+    // accessors on the corners, on the used cells and just outside
+    for (i, j, v) in used.iter().take(4096) {
+        let abs = (s.0 + *i as u32, s.1 + *j as u32);
+        if r.get_value(abs) != Some(v) || r.get((*i, *j)) != Some(v) {
+            return Some(format!("get_value{:?} / get({i},{j}) != {v}", abs));
+        }
+    }
+    if r.get((h, 0)).is_some() || r.get((0, w)).is_some() {
+        return Some("get outside the rectangle returns a cell".into());
+    }
+    if e.0 < u32::MAX && r.get_value((e.0 + 1, s.1)).is_some() || e.1 < u32::MAX && r.get_value((s.0, e.1 + 1)).is_some() {
+        return Some("get_value outside the rectangle returns a cell".into());
+    }
+    None
+}
+
+const LARGE_MIN: u64 = 1 << 17;
+
+fn gen_large(rng: &mut Rng, cap: u64) -> Vec<LOp> {
+    let total = rng.range(LARGE_MIN + 1, (LARGE_MIN * 5 / 2).min(cap / 3));
+    let widths = [1u64, 2, 3, 7, 64, 257, 1000, total / 3, total / 2, total];
+    let w = (*rng.pick(&widths)).max(1);
+    let h = total / w + 1;
+    let r0 = *rng.pick(&[0u64, 0, 1, 5, 1000]);
+    let c0 = *rng.pick(&[0u64, 0, 1, 3, 700]);
+    let mut ops = vec![];
+    if rng.chance(1, 3) {
+        ops.push(LOp::Dense(r0 as u32, c0 as u32, h as u32, w as u32, rng.below(4) as u32, rng.next()));
+    } else {
+        ops.push(LOp::New(r0 as u32, c0 as u32, h as u32, w as u32));
+        ops.push(LOp::Fill(rng.range(50, 1500) as u32, rng.next()));
+    }
+    let (mut sr, mut sc, mut er, mut ec) = (r0, c0, r0 + h - 1, c0 + w - 1);
+    for _ in 0..rng.range(1, 4) {
+        let (hh, ww) = (er - sr + 1, ec - sc + 1);
+        if rng.chance(1, 2) {
+            // set_value past the end: widen by less than / exactly / more than the old width, or grow down
+            let dc = *rng.pick(&[0u64, 1, 1, 2, ww / 2, ww.saturating_sub(1), ww, ww + 5]);
+            let dr = *rng.pick(&[0u64, 0, 1, 2, hh / 7]);
+            let (nr, nc) = (er + dr, ec + dc);
+            if (nr - sr + 1) * (nc - sc + 1) > cap {
+                continue;
+            }
+            let row = if dr == 0 { rng.range(sr, er) } else { nr };
+            ops.push(LOp::Set(row as u32, nc as u32, 1 + rng.below(1000) as usize));
+            er = nr.max(er);
+            ec = nc;
+        } else {
+            // a window that keeps at least LARGE_MIN cells and (usually) starts in another column / row
+            let a = (sr + rng.below(3)).saturating_sub(rng.below(3));
+            let b = (sc + rng.below(4)).saturating_sub(rng.below(4));
+            let c = (er + rng.below(3)).saturating_sub(rng.below(3)).max(a);
+            let d = (ec + rng.below(4)).saturating_sub(rng.below(4)).max(b);
+            let area = (c - a + 1) * (d - b + 1);
+            if area > cap || area < LARGE_MIN {
+                continue;
+            }
+            ops.push(LOp::Range(a as u32, b as u32, c as u32, d as u32));
+            (sr, sc, er, ec) = (a, b, c, d);
+        }
+    }
+    ops
+}
+
+/// Some((sig, step text, what differs)) for the first observable difference
+fn run_large(lops: &[LOp]) -> Option<(String, String)> {
+    let mut r: Range<usize> = Range::empty();
+    let mut o = Oracle::default();
+    for (i, lop) in lops.iter().enumerate() {
+        for op in lop.expand(o.rect) {
+            let res = apply_inplace(&mut r, &op);
+            let expect_panic = o.apply_quiet(&op);
+            match (res.is_err(), expect_panic) {
+                (true, Some(false)) => return Some((format!("large:{}:panic", lop.wire().split(',').next().unwrap()), format!("step {i}: implementation panicked"))),
+                (false, Some(true)) => return Some((format!("large:{}:no-panic", lop.wire().split(',').next().unwrap()), format!("step {i}: documented panic missing"))),
+                _ => {}
+            }
+            if expect_panic.is_none() {
+                o.resync(&r);
+            }
+        }
+        if let Some(d) = compare_large(&r, &o) {
+            return Some((format!("large:{}", lop.wire().split(',').next().unwrap()), format!("step {i} ({}): {d}", lop.wire())));
+        }
+    }
+    None
+}
+
 fn shrink(ops: Vec<Op>, kind: &str, sig: &str, drv: &mut Driver) -> Vec<Op> {
     let fails = |o: &[Op], drv: &mut Driver| run_history(o, drv).fails.iter().any(|f| f.0 == kind && f.1 == sig);
     let mut cur = ops;
@@ -478,22 +825,48 @@ fn main() {
     let mut rep = Report::new(
         "C05",
         "random operation histories (1..16 ops: new/empty/from_sparse/set_value/range, coordinates from \
-         {0,1,2,5,255,65535,2^20-1,2^32-24}+small deltas, values 0..4) after each op the full observable state \
+         {0,1,2,5,255,65535,2^20-1,2^32-24}+small deltas, values 0..4; from_sparse lists random or a full small box \
+         with repeated / dropped positions) after each op the full observable state \
          (start,end,size,rows,cells,used_cells,get_value/get/Index probes) is compared impl vs Lean model vs \
-         independent sparse-map oracle; non-trivial = history of >=2 ops containing a growing set_value or a \
-         range over a non-empty source; distinct by the history text",
+         independent sparse-map oracle; on the final state of every history the three iterators are consumed from \
+         BOTH ends by a random next/next_back pattern (impl vs Lean iterator model vs a double-ended queue over the \
+         forward enumeration); plus LARGE rectangles (2^17 .. 2^18.3 cells quick, up to 2^21 thorough; new+fill or \
+         dense from_sparse with repeats, then set_value past the end by less/more than the width, windows with a \
+         different first column) impl vs oracle only, structurally; non-trivial = history of >=2 ops containing a \
+         growing set_value or a range over a non-empty source, or any large history; distinct by the history text",
     );
     let mut histories: Vec<Vec<Op>> = vec![];
+    let mut iters: Vec<(String, Vec<Op>)> = vec![];
+    let mut larges: Vec<Vec<LOp>> = vec![];
+    let mut rng = Rng::new(args.seed);
     if let Some(inp) = &args.replay {
-        histories.push(inp.split(';').map(Op::parse).collect());
+        if let Some(rest) = inp.strip_prefix("iter:") {
+            let (pat, ops) = rest.split_once('|').expect("iter:<pat>|<ops>");
+            iters.push((pat.to_string(), ops.split(';').map(Op::parse).collect()));
+        } else if let Some(rest) = inp.strip_prefix("large:") {
+            larges.push(rest.split(';').map(LOp::parse).collect());
+        } else {
+            histories.push(inp.split(';').map(Op::parse).collect());
+        }
     } else {
         for c in corpus() {
             histories.push(c.split(';').map(Op::parse).collect());
         }
+        for c in corpus_iter() {
+            let (pat, ops) = c.split_once('|').unwrap();
+            iters.push((pat.to_string(), ops.split(';').map(Op::parse).collect()));
+        }
+        for c in corpus_large() {
+            larges.push(c.split(';').map(LOp::parse).collect());
+        }
         let n = args.count(6000, 1_000_000);
-        let mut rng = Rng::new(args.seed);
         for _ in 0..n {
             histories.push(gen_history(&mut rng));
+        }
+        let cap: u64 = if args.thorough() { 1 << 21 } else { 1 << 20 };
+        let nl = if args.n.is_some() { (n / 150).max(4) } else { args.count(40, 1500) };
+        for _ in 0..nl {
+            larges.push(gen_large(&mut rng, cap));
         }
     }
     let mut shrunk = 0;
@@ -526,7 +899,89 @@ fn main() {
                 rep.fail(kind, sig, &text, i, m, e);
             }
         }
+        if out.fails.is_empty() && args.replay.is_none() {
+            // the iterators of the final state, consumed from both ends
+            let mut r: Range<usize> = Range::empty();
+            for op in &ops {
+                let _ = apply_impl(&mut r, op);
+            }
+            let pat = gen_pattern(&mut rng, r.get_size().0 * r.get_size().1);
+            iters.push((pat, ops));
+        }
+    }
+    for (pat, ops) in iters {
+        let fails = run_iter(&ops, &pat, &mut drv);
+        let text = format!("iter:{pat}|{}", ops.iter().map(|o| o.wire()).collect::<Vec<_>>().join(";"));
+        let mixed = pat.contains('f') && pat.contains('b');
+        rep.case(&text, mixed);
+        rep.count(if mixed { "iter.mixed-ends" } else { "iter.one-end" });
+        for (kind, sig, i, m, e) in fails {
+            // shrink: drop operations, then pattern characters, while the same failure remains
+            let (mut sops, mut spat) = (ops.clone(), pat.clone());
+            if shrunk < 12 {
+                shrunk += 1;
+                let still = |o: &[Op], p: &str, drv: &mut Driver| !p.is_empty() && run_iter(o, p, drv).iter().any(|f| f.0 == kind && f.1 == sig);
+                let mut k = 0;
+                while k < sops.len() {
+                    let mut c = sops.clone();
+                    c.remove(k);
+                    if !c.is_empty() && still(&c, &spat, &mut drv) { sops = c } else { k += 1 }
+                }
+                let mut k = 0;
+                while k < spat.len() {
+                    let mut c = spat.clone();
+                    c.remove(k);
+                    if still(&sops, &c, &mut drv) { spat = c } else { k += 1 }
+                }
+            }
+            let stext = format!("iter:{spat}|{}", sops.iter().map(|o| o.wire()).collect::<Vec<_>>().join(";"));
+            match run_iter(&sops, &spat, &mut drv).into_iter().find(|f| f.0 == kind && f.1 == sig) {
+                Some(f) => rep.fail(&kind, &sig, &stext, &f.2, &f.3, &f.4),
+                None => rep.fail(&kind, &sig, &text, &i, &m, &e),
+            }
+        }
+    }
+    for lops in larges {
+        if lops.is_empty() {
+            continue;
+        }
+        let text = format!("large:{}", lops.iter().map(|o| o.wire()).collect::<Vec<_>>().join(";"));
+        rep.case(&text, true);
+        rep.count("large.histories");
+        for o in &lops {
+            rep.count(&format!("large.op.{}", o.wire().split(',').next().unwrap()));
+        }
+        if let Some((sig, what)) = run_large(&lops) {
+            // shrink: drop whole large operations while the same signature fails
+            let mut cur = lops.clone();
+            let mut k = 0;
+            while k < cur.len() {
+                let mut c = cur.clone();
+                c.remove(k);
+                if !c.is_empty() && run_large(&c).map(|f| f.0 == sig).unwrap_or(false) { cur = c } else { k += 1 }
+            }
+            let stext = format!("large:{}", cur.iter().map(|o| o.wire()).collect::<Vec<_>>().join(";"));
+            let swhat = run_large(&cur).map(|f| f.1).unwrap_or(what);
+            rep.fail("impl_vs_spec", &sig, &stext, &swhat, "(the Lean model is not run on large rectangles)", "the oracle's rectangle and sparse map");
+        }
     }
     rep.add("driver_requests", drv.requests);
     rep.write(&args.out);
+}
+
+fn corpus_iter() -> Vec<&'static str> {
+    vec![
+        "fbbffb|N,3,4,4,5;S,3,4,1;S,4,5,4",
+        "bfbfbfbf|N,0,0,1,2;S,0,0,1;S,1,2,5;S,0,2,7",
+        "fb|E",
+        "bbbb|F,2,5,1,2,3,2,3,5,3",
+    ]
+}
+
+fn corpus_large() -> Vec<&'static str> {
+    vec![
+        // widen a 2^17-cell rectangle by less than its width, then window it from another column
+        "NB,0,2,513,257;FILL,400,7;S,100,300,9;R,0,0,513,300",
+        "FD,1,1,1025,129,3,11;S,5,140,4",
+    ]
 }
